@@ -611,4 +611,269 @@ theorem iterForSending_ok (s : Segments) (start : Option Nat) (h : SInv s) :
   refine ⟨by simpa [Segments.mkView] using hv2, hmem p hp, by simp only [Segments.mkView]; omega,
     by simp only [Segments.mkView]; omega, rfl⟩
 
+/-! ### The never-sent tail of the queue (`discard_unsent`, D22) -/
+
+def U (g : Segment) : Bool := decide (g.sent = .notSent)
+
+theorem tu_all (l : List Segment) (h : l.all (fun x => x.sent = .notSent) = true) : trailingUnsent l = l.length := by
+  induction l with
+  | nil => rfl
+  | cons g rest ih =>
+    simp only [List.all_cons, Bool.and_eq_true, decide_eq_true_eq] at h
+    unfold trailingUnsent
+    simp [h.1, h.2]
+
+theorem tu_le (l : List Segment) : trailingUnsent l ≤ l.length := by
+  induction l with
+  | nil => simp [trailingUnsent]
+  | cons g rest ih =>
+    unfold trailingUnsent
+    split
+    · simp
+    · simp only [List.length_cons]; omega
+
+theorem tu_drop (l : List Segment) (k : Nat) : trailingUnsent (l.drop k) = min (trailingUnsent l) (l.length - k) := by
+  induction l generalizing k with
+  | nil => simp [trailingUnsent]
+  | cons g rest ih =>
+    cases k with
+    | zero => simp only [List.drop_zero, Nat.sub_zero]; have := tu_le (g :: rest); omega
+    | succ k =>
+      simp only [List.drop_succ_cons, List.length_cons, Nat.add_sub_add_right]
+      rw [ih k]
+      conv => rhs; unfold trailingUnsent
+      split
+      · rename_i h
+        rw [tu_all rest h.1]
+        omega
+      · rfl
+
+/-- depends only on the `sent` flags -/
+theorem tu_congr (l l' : List Segment) (h : l.map (·.sent) = l'.map (·.sent)) : trailingUnsent l = trailingUnsent l' := by
+  induction l generalizing l' with
+  | nil => cases l' <;> simp_all [trailingUnsent]
+  | cons g rest ih =>
+    cases l' with
+    | nil => simp at h
+    | cons g' rest' =>
+      simp only [List.map_cons, List.cons.injEq] at h
+      have hlen : rest.length = rest'.length := by simpa using congrArg List.length h.2
+      have hall : rest.all (fun x => x.sent = .notSent) = rest'.all (fun x => x.sent = .notSent) := by
+        have e1 : rest.all (fun x => x.sent = .notSent) = (rest.map (·.sent)).all (fun x => x = .notSent) := by
+          simp [List.all_map]; rfl
+        have e2 : rest'.all (fun x => x.sent = .notSent) = (rest'.map (·.sent)).all (fun x => x = .notSent) := by
+          simp [List.all_map]; rfl
+        rw [e1, e2, h.2]
+      unfold trailingUnsent
+      rw [hall, h.1, hlen, ih rest' h.2]
+
+theorem tu_cons_ge (g : Segment) (rest : List Segment) : trailingUnsent rest ≤ trailingUnsent (g :: rest) := by
+  conv => rhs; unfold trailingUnsent
+  split
+  · have := tu_le rest; omega
+  · exact Nat.le_refl _
+
+theorem all_set_false (l : List Segment) (i : Nat) (g' : Segment) (hi : i < l.length) (hg : g'.sent ≠ .notSent) :
+    (l.set i g').all (fun x => x.sent = .notSent) = false := by
+  rw [List.all_eq_false]
+  exact ⟨g', List.mem_set hi g', by simpa using hg⟩
+  
+theorem tu_cons_of_not_all (g : Segment) (rest : List Segment) (h : rest.all (fun x => x.sent = .notSent) = false) :
+    trailingUnsent (g :: rest) = trailingUnsent rest := by
+  conv => lhs; unfold trailingUnsent
+  simp [h]
+
+/-- marking a segment as sent never lengthens the unsent tail … -/
+theorem tu_set_le (l : List Segment) (idx : Nat) (g' : Segment) (hg : g'.sent ≠ .notSent) :
+    trailingUnsent (l.set idx g') ≤ trailingUnsent l := by
+  induction l generalizing idx with
+  | nil => simp
+  | cons g rest ih =>
+    cases idx with
+    | zero =>
+      simp only [List.set_cons_zero]
+      have : trailingUnsent (g' :: rest) = trailingUnsent rest := by
+        conv => lhs; unfold trailingUnsent
+        simp [hg]
+      rw [this]; exact tu_cons_ge g rest
+    | succ i =>
+      simp only [List.set_cons_succ]
+      rcases Nat.lt_or_ge i rest.length with hi | hi
+      · rw [tu_cons_of_not_all g _ (all_set_false rest i g' hi hg)]
+        exact Nat.le_trans (ih i) (tu_cons_ge g rest)
+      · rw [List.set_eq_of_length_le hi]; exact Nat.le_refl _
+
+/-- … and puts that segment in front of it. -/
+theorem tu_set_idx (l : List Segment) (idx : Nat) (g' : Segment) (hg : g'.sent ≠ .notSent) (hi : idx < l.length) :
+    idx + 1 + trailingUnsent (l.set idx g') ≤ l.length := by
+  induction l generalizing idx with
+  | nil => simp at hi
+  | cons g rest ih =>
+    cases idx with
+    | zero =>
+      simp only [List.set_cons_zero, List.length_cons]
+      have : trailingUnsent (g' :: rest) = trailingUnsent rest := by
+        conv => lhs; unfold trailingUnsent
+        simp [hg]
+      rw [this]; have := tu_le rest; omega
+    | succ i =>
+      simp only [List.length_cons, Nat.add_lt_add_iff_right] at hi
+      simp only [List.set_cons_succ, List.length_cons]
+      rw [tu_cons_of_not_all g _ (all_set_false rest i g' hi hg)]
+      have := ih i hi; omega
+
+/-- what is left after discarding the unsent tail has no unsent tail -/
+theorem tu_take (l : List Segment) : trailingUnsent (l.take (l.length - trailingUnsent l)) = 0 := by
+  induction l with
+  | nil => simp [trailingUnsent]
+  | cons g rest ih =>
+    by_cases hc : rest.all (fun x => x.sent = .notSent) = true ∧ g.sent = .notSent
+    · have : trailingUnsent (g :: rest) = rest.length + 1 := by
+        conv => lhs; unfold trailingUnsent
+        simp [hc.1, hc.2]
+      rw [this]; simp [trailingUnsent]
+    · have ht : trailingUnsent (g :: rest) = trailingUnsent rest := by
+        conv => lhs; unfold trailingUnsent
+        simp only [hc, if_false]
+      rw [ht]
+      have hle := tu_le rest
+      have e : (g :: rest).length - trailingUnsent rest = (rest.length - trailingUnsent rest) + 1 := by
+        simp only [List.length_cons]; omega
+      rw [e, List.take_succ_cons]
+      generalize hr : rest.take (rest.length - trailingUnsent rest) = r' at ih
+      rcases Classical.em (r'.all (fun x => x.sent = .notSent) = true) with ha | ha
+      · -- r' all unsent and its tail is 0: r' = []
+        have hl := tu_all r' ha
+        rw [ih] at hl
+        have hnil : r' = [] := List.eq_nil_of_length_eq_zero hl.symm
+        subst hnil
+        -- then rest is entirely unsent, so g is sent
+        have hfull : trailingUnsent rest = rest.length := by
+          have := congrArg List.length hr
+          simp only [List.length_take, List.length_nil] at this
+          omega
+        have hall : rest.all (fun x => x.sent = .notSent) = true := by
+          rcases Classical.em (rest.all (fun x => x.sent = .notSent) = true) with h | h
+          · exact h
+          · exfalso
+            -- a list with a sent element has a tail shorter than its length
+            have : trailingUnsent rest < rest.length ∨ rest = [] := by
+              clear hr ih hle e ht hc hfull
+              induction rest with
+              | nil => right; rfl
+              | cons a t iht =>
+                left
+                simp only [List.all_cons, Bool.and_eq_true, decide_eq_true_eq, not_and] at h
+                conv => lhs; unfold trailingUnsent
+                split
+                · rename_i hh; exact absurd hh.1 (fun ht' => h hh.2 ht')
+                · have := tu_le t; simp only [List.length_cons]; omega
+            rcases this with h1 | h1
+            · omega
+            · subst h1; simp at h
+        have hg : g.sent ≠ .notSent := fun hgs => hc ⟨hall, hgs⟩
+        conv => lhs; unfold trailingUnsent
+        simp [hg, trailingUnsent]
+      · have : r'.all (fun x => x.sent = .notSent) = false := by simpa using ha
+        rw [tu_cons_of_not_all g r' this, ih]
+
+theorem contig_take (start : Nat) (l : List Segment) (n : Nat) (h : Contig start l) : Contig start (l.take n) := by
+  induction l generalizing start n with
+  | nil => simp [Contig]
+  | cons g rest ih =>
+    cases n with
+    | zero => simp [Contig]
+    | succ n => simp only [List.take_succ_cons, Contig] at h ⊢; exact ⟨h.1, ih _ _ h.2⟩
+
+/-- **`discard_unsent` keeps the queue's accounting invariant**, removes exactly the never-sent tail and touches
+nothing else. -/
+theorem discardUnsent_ok (s : Segments) (h : SInv s) :
+    SInv s.discardUnsent ∧ s.discardUnsent.sndUna = s.sndUna ∧ s.discardUnsent.removedOffset = s.removedOffset ∧
+    s.discardUnsent.segs = s.segs.take (s.segs.length - trailingUnsent s.segs) ∧
+    s.discardUnsent.segs.length = s.segs.length - trailingUnsent s.segs ∧
+    trailingUnsent s.discardUnsent.segs = 0 := by
+  have hle := tu_le s.segs
+  have hsz := sizes_take_drop s.segs (s.segs.length - trailingUnsent s.segs)
+  unfold Segments.discardUnsent
+  dsimp only
+  refine ⟨⟨?_, contig_take _ _ _ h.contig, ?_⟩, rfl, rfl, rfl, ?_, tu_take s.segs⟩
+  · show s.lenBytes - _ = sizes _
+    have hb := h.bytes
+    show s.lenBytes - sizes (s.segs.drop (s.segs.length - trailingUnsent s.segs)) = sizes (s.segs.take (s.segs.length - trailingUnsent s.segs))
+    omega
+  · have hb := h.bytes
+    have he := h.ending
+    show s.offset - sizes (s.segs.drop (s.segs.length - trailingUnsent s.segs)) =
+      s.removedOffset + (s.lenBytes - sizes (s.segs.drop (s.segs.length - trailingUnsent s.segs)))
+    omega
+  · simp only [List.length_take]; omega
+
+theorem markSacked_sent (now : Nat) (l : List Segment) (bits : List Bool) (a : AckAcc) :
+    (markSacked now l bits a).1.map (·.sent) = l.map (·.sent) := by
+  induction l generalizing bits a with
+  | nil => simp [markSacked]
+  | cons seg rest ih =>
+    cases bits with
+    | nil => rfl
+    | cons bit bits =>
+      unfold markSacked
+      split
+      · dsimp only; simp only [List.map_cons, ih]
+      · dsimp only; simp only [List.map_cons, ih]
+
+theorem sackPhase_sent (now ackNr : Nat) (sack : Option Sack) (s1 : Segments) (a1 : AckAcc) :
+    (sackPhase now ackNr sack s1 a1).1.segs.map (·.sent) = s1.segs.map (·.sent) := by
+  unfold sackPhase
+  cases s1.firstSeqNr with
+  | none => rfl
+  | some first =>
+    cases sack with
+    | none => rfl
+    | some sk =>
+      simp only
+      split
+      · dsimp only
+        split
+        · rw [List.map_append, markSacked_sent, ← List.map_append, List.take_append_drop]
+        · exact markSacked_sent _ _ _ _
+      · rfl
+
+/-- `remove_up_to_ack` never changes the transmission status of a segment it keeps: the `sent` flags afterwards are
+those of the old queue minus the removed prefix. -/
+theorem removeUpToAck_sent (s : Segments) (now ackNr : Nat) (sack : Option Sack) (h : SInv s) (hu : s.sndUna < 65536)
+    (s' : Segments) (r : OnAckResult) (hr : s.removeUpToAck now ackNr sack = some (s', r)) :
+    s'.segs.map (·.sent) = (s.segs.map (·.sent)).drop (s.segs.length - s'.segs.length) ∧ s'.segs.length ≤ s.segs.length := by
+  rw [removeUpToAck_eq] at hr
+  have h0 : MidInv s ({} : AckAcc).payloadSize := ⟨h.bytes, by simpa using h.contig, by have := h.ending; simpa using this⟩
+  have hp1 : ∃ s1 a1 k1, (if seqSub ackNr s.sndUna ≥ 0 then drainFront now (min ((seqSub ackNr s.sndUna).toNat + 1) s.segs.length) s {} else some (s, {})) = some (s1, a1) ∧
+      MidInv s1 a1.payloadSize ∧ s1.segs = s.segs.drop k1 ∧ k1 ≤ s.segs.length ∧ s1.sndUna < 65536 := by
+    split
+    · obtain ⟨s1, a1, he, hm, hsg, _, _, _, hul, _⟩ :=
+        drainFront_ok now (min ((seqSub ackNr s.sndUna).toNat + 1) s.segs.length) s {} h0 hu
+      exact ⟨s1, a1, _, he, hm, hsg, Nat.min_le_right _ _, hul⟩
+    · exact ⟨s, {}, 0, rfl, h0, by simp, by omega, hu⟩
+  obtain ⟨s1, a1, k1, he1, hm1, hsg1, hk1, hul1⟩ := hp1
+  rw [he1] at hr
+  simp only at hr
+  obtain ⟨hm2, hkey2, _, _, hun2, _⟩ := sackPhase_ok now ackNr sack s1 a1 hm1
+  have hsent2 := sackPhase_sent now ackNr sack s1 a1
+  generalize sackPhase now ackNr sack s1 a1 = r2 at *
+  obtain ⟨s2, a2⟩ := r2
+  simp only at hm2 hkey2 hun2 hsent2 hr
+  obtain ⟨s3, a3, k3, he3, _, hsg3, hk3, _⟩ :=
+    cleanupFront_ok (s2.segs.length + 1) s2 a2 hm2 (by rw [hun2]; exact hul1) (by omega)
+  rw [he3] at hr
+  simp only [Option.some.injEq, Prod.mk.injEq] at hr
+  have hlen2 : s2.segs.length = s1.segs.length := by
+    have := congrArg List.length hkey2; simpa using this
+  rw [← hr.1]
+  simp only
+  have hl1 : s1.segs.length = s.segs.length - k1 := by rw [hsg1, List.length_drop]
+  have hl3 : s3.segs.length = s.segs.length - k1 - k3 := by rw [hsg3, List.length_drop, hlen2, hl1]
+  refine ⟨?_, by omega⟩
+  rw [hsg3, List.map_drop, hsent2, hsg1, List.map_drop, List.drop_drop]
+  congr 1
+  rw [List.length_drop, hlen2, hl1]
+  rw [hlen2, hl1] at hk3
+  omega
 end UtpVerif.Lemmas.Segments
